@@ -336,6 +336,16 @@ fn general_case(ctx: &Ctx, env: &RealEnv, dir: &std::path::Path, case: u64, seed
         w.write_source("gen.in", rng.next());
         w.write_manifest();
     }
+    // C02, every third case: response files whose content changes (often without changing length)
+    let rsp_case = prop == "C02" && case % 3 == 0;
+    if rsp_case {
+        let cands: Vec<usize> = (0..w.proj.steps.len()).filter(|&i| !w.proj.steps[i].phony && w.proj.steps[i].effect != Effect::Generator).collect();
+        for &i in cands.iter().take(3) {
+            let id = w.proj.steps[i].id.clone();
+            w.proj.steps[i].rsp = Some((format!("{}.rsp", id), format!("content {:02}", rng.below(100))));
+        }
+        w.write_manifest();
+    }
     let mut hist: Vec<J> = Vec::new();
     let nbuilds = rng.range(2, 4);
     let mut nontrivial = false;
@@ -350,6 +360,17 @@ fn general_case(ctx: &Ctx, env: &RealEnv, dir: &std::path::Path, case: u64, seed
                 if let Some(o) = super::hist::random_edit(prop, &mut rng, &mut w) {
                     hist.push(o);
                 }
+            }
+            if rsp_case {
+                for i in 0..w.proj.steps.len() {
+                    if let Some((p, _)) = w.proj.steps[i].rsp.clone() {
+                        if rng.chance(1, 2) {
+                            w.proj.steps[i].rsp = Some((p, format!("content {:02}", rng.below(100))));
+                        }
+                    }
+                }
+                w.write_manifest();
+                hist.push(J::s("response-file contents changed"));
             }
         }
         let mut inv = RInv::default();
